@@ -12,6 +12,7 @@ import (
 	"verif/harness/core"
 	"verif/harness/fakes"
 	"verif/harness/gen"
+	"verif/harness/sched"
 )
 
 func init() { All["C02"] = C02 }
@@ -101,11 +102,47 @@ func C02(c *core.Ctx) {
 			if got := f2.Conns[0].Accepted(); !bytes.Equal(got, raw) {
 				c.Violation("judge-go", "c02-raw", "Send(RawMessage) did not deliver the bytes verbatim", map[string]interface{}{"size": sz, "raw": trunc(hx(raw), 200), "wire": trunc(hx(got), 200)})
 			}
+			// the same bytes held by pointer (a relay that fills a RawMessage in place passes &rm), and through the
+			// websocket client: SendRaw, Send by value, Send by pointer
+			rm := protocol.RawMessage(raw)
+			cl3, f3 := liveClient(ack)
+			if err := cl3.Send(&rm); err != nil || !bytes.Equal(f3.Conns[0].Accepted(), raw) {
+				c.Violation("judge-go", "c02-raw", fmt.Sprintf("Send(&RawMessage) did not deliver the bytes verbatim (err %v)", err), map[string]interface{}{"size": sz, "raw": trunc(hx(raw), 200), "wire": trunc(hx(f3.Conns[0].Accepted()), 200)})
+			}
+			for how, send := range []func(w *client.WSClient) error{
+				func(w *client.WSClient) error { return w.SendRaw(raw) },
+				func(w *client.WSClient) error { return w.Send(protocol.RawMessage(raw)) },
+				func(w *client.WSClient) error { return w.Send(&rm) },
+			} {
+				w, wf := liveWS()
+				err := send(w)
+				var got [][]byte
+				if len(wf.sessions) > 0 {
+					got = wf.sessions[0].Writes
+				}
+				if err != nil || len(got) != 1 || !bytes.Equal(got[0], raw) {
+					c.Violation("judge-go", "c02-raw", fmt.Sprintf("websocket client, %s: the connection did not receive exactly one write with the caller's bytes (err %v, %d writes)", []string{"SendRaw", "Send(RawMessage)", "Send(&RawMessage)"}[how], err, len(got)),
+						map[string]interface{}{"size": sz, "raw": trunc(hx(raw), 200)})
+				}
+				_ = w.Disconnect()
+			}
 			c.Eval()
 			c.Hist(fmt.Sprintf("raw size class %d KiB", sz/2048))
 			c.Distinct(fmt.Sprint("raw", sz))
 		}
 	}
+}
+
+// liveWS: a connected websocket client over the stand-in connection that records every Write.
+func liveWS() (*client.WSClient, *wsFactory) {
+	s := sched.New()
+	s.Release()
+	f := &wsFactory{s: s, dialOK: map[string]bool{}, log: func(string) {}, wok: func() bool { return true }}
+	w := client.NewWS(client.WSConnectionOptions{Factory: f})
+	if err := w.Connect(); err != nil {
+		panic(err)
+	}
+	return w, f
 }
 
 // failedEncode makes the client fail one Send half way through encoding (recycled encoders /
